@@ -42,6 +42,8 @@ pub struct ServerSnapshot {
     pub global_sequence: u64,
     pub current_time: Duration,
     pub token_entries: usize,
+    /// FNV-1a digest over (mac, address) of the used connect token entries, in table order
+    pub token_entries_digest: u64,
 }
 
 #[derive(Debug, Clone, Copy, PartialEq, Eq)]
